@@ -638,6 +638,8 @@ class Body:
         e = self.init_expr(iter_local)
         while isinstance(e, tuple) and e[0] == "call" and e[1] == "into_iter" and len(e[3]) == 1:
             e = e[3][0]
+        if e is None:
+            return ("unknown", "iterator source of %s" % self.local_name(iter_local))
         return e
 
     def iv_name(self, iter_local):
